@@ -40,7 +40,11 @@ LABEL_POOLS = [
     [("x", 0), ("x", 1), ("y", 0), "z", 2, 7],
     [3, 1, 4, 15, 9, 2],
     ["x0", "x1", "y", -1, 0, ("t",)],
+    # distinct labels with equal hashes (CPython: hash(-1) == hash(-2) == -2, hash(2**61 - 1) == hash(0) == 0)
+    [-1, -2, 3, 2 ** 61 - 1, 0, "a"],
 ]
+# partner of equal hash for the labels of the last pool
+HASH_TWIN = {-1: -2, -2: -1, 0: 2 ** 61 - 1, 2 ** 61 - 1: 0}
 INT_POOLS = [
     [0, 1, 2, 3, 4, 5],
     [0, 2, 3, 5, 7, 8],     # gaps
